@@ -22,7 +22,7 @@ claim("C14", "proof",
       "postconditions, written from the layout text, of the real encoders (itemBa.render, ploc.write, node.populateDiskStruct, itemLoc.write, "
       "nodeLoc.write, Store.writeRoots) and the real decoders (itemBa.populate, ploc.read, populateNode, itemLoc.read, nodeLoc.read, readRootsEnd, "
       "checkAndReadRoots); encoder and decoder contracts use the same spec functions, so each pair is inverse; writeNodes persists children before parents (P2).",
-      A_E2E + A_COMMON + " Not decided: the JSON text inside the root record (library, A8).")
+      A_E2E + A_COMMON + " Not decided by proof: the JSON text inside the root record (library, A8); the bounded cross-check decodes every flushed file of its histories with an INDEPENDENT decoder of the v4 layout (sharing no code with gkvlite) and compares with the store's state.")
 
 claim("C01", "proof",
       "Per-call sorted-map semantics proved over the abstract tree T denoted by the current root: GetItem/Get return the item stored under the key or nil (loop invariant over the descent), "
@@ -36,7 +36,7 @@ claim("C01", "proof",
 claim("C13", "proof",
       "Proved for every node construction site in union/split/join/SetItem: mkNode is called with numNodes = cnt and numBytes = sumb of the abstract children plus the item (exact aggregates, a precondition of mkNode discharged at every call site, numInfo proved to return them); "
       "search order (bst) is a postcondition of union/split/join/SetItem/Delete; heap order (hp) is preserved by split, join, Delete, and by union/SetItem exactly under the property's own condition (no key overwritten with a lower priority).",
-      A_E2E + A_COMMON + A_TREE + " 'Canonical shape' (depth determined by keys and priorities alone) follows from the proved bst+hp postconditions by lemma U (treap uniqueness under distinct priorities), which is proved in Lean (/verif/lean/LemmaU.lean, re-checked by the thorough tier) -- the step from 'the tree is a bst and a heap' to 'the reported depth is the unique one' is that lemma plus visitNodes' proved depth clause, composed on paper; persisted aggregates = in-memory aggregates rests on the node codec (C14).")
+      A_E2E + A_COMMON + A_TREE + " 'Canonical shape' (depth determined by keys and priorities alone) follows from the proved bst+hp postconditions by lemma U (treap uniqueness under distinct priorities), which is proved in Lean (/verif/lean/LemmaU.lean, re-checked by the thorough tier) -- the step from 'the tree is a bst and a heap' to 'the reported depth is the unique one' is that lemma plus visitNodes' proved depth clause, composed on paper; the bounded cross-check additionally compares the depth of every item, after every step, with the depth computed from keys and priorities alone; persisted aggregates = in-memory aggregates rests on the node codec (C14).")
 
 claim("C03", "proof",
       "Proved: the root scan (scanBackwardsForMagicEnd, readRootsScan, checkAndReadRoots, readRoots, NewStoreEx) terminates and opens at the GREATEST position at which a complete, "
